@@ -194,6 +194,9 @@ def subchecks(tier):
             required_classes=("chain=3", "trimmed=1")),
         Sub("swarm", "hyp", check_list, strategy=gen_unit.swarm_case, examples=400 if q else 12000, shrink_budget=100,
             describe="18-40 seed peaks 25-100 bp apart on a molecule of 1-3 labels: chains of dozens of segments over the same labels"),
+        Sub("long-segment", "hyp", check_list, strategy=lambda: gen_unit.junction_case(long_head=True), examples=2000 if q else 40000, shrink_budget=30,
+            describe="junction cases whose first segment runs over 250-520 labels (position lists longer than 256) before the conflict",
+            sample_filter=lambda c: dict(c, ref=f"{len(c['ref'])} labels", query=f"{len(c['query'])} labels")),
         Sub("subtract-unit", "hyp", check_subtract, strategy=subtract_case, examples=12000 if q else 300000, shrink_budget=800,
             describe="AlignmentSegment.__sub__ with a prefix / suffix of the positions, scores from a small alphabet (remainders that sum to exactly zero)",
             required_classes=("rest-sums-to-zero",)),
